@@ -168,6 +168,8 @@ pub struct Proj {
     pub g: Graph,
     pub style: Style,
     pub layout: bool,
+    /// this file ends with a directive that fails (include of a missing file): the run must end with Err
+    pub err: Option<usize>,
 }
 
 thread_local! {
@@ -250,6 +252,9 @@ impl Proj {
             return s;
         }
         s.push_str(&format!("{x}-tail\n"));
+        if self.err == Some(i) {
+            s.push_str("TXTPP#include no-such-file.txt\n");
+        }
         s
     }
     /// closed-form serial oracle; None for files that can reach a cycle
@@ -276,7 +281,7 @@ impl Proj {
         Some(s)
     }
     pub fn describe(&self) -> String {
-        format!("{} style={:?}{}", self.g.describe(), self.style, if self.layout { " layout=dirs+shapes" } else { "" })
+        format!("{} style={:?}{}{}", self.g.describe(), self.style, if self.layout { " layout=dirs+shapes" } else { "" }, match self.err { Some(k) => format!(" failing-file={}", NAMES[k]), None => String::new() })
     }
 }
 
@@ -315,6 +320,7 @@ impl Case {
             "n": self.proj.g.n, "adj": self.proj.g.adj, "edges": self.proj.g.describe(),
             "style": format!("{:?}", self.proj.style),
             "layout": self.proj.layout,
+            "err": self.proj.err,
             "inputs": self.inputs, "roots": self.roots,
             "pre": format!("{:?}", self.pre), "mode": format!("{:?}", self.mode),
             "threads": self.threads, "recursive": self.recursive,
@@ -340,6 +346,7 @@ impl Case {
                 g: Graph { n: v["n"].as_u64().unwrap() as usize, adj: v["adj"].as_u64().unwrap() as u32 },
                 style,
                 layout: v["layout"].as_bool().unwrap_or(false),
+                err: v["err"].as_u64().map(|x| x as usize),
             },
             inputs: v["inputs"].as_array().unwrap().iter().map(|x| x.as_str().unwrap().to_string()).collect(),
             roots: v["roots"].as_array().unwrap().iter().map(|x| x.as_u64().unwrap() as usize).collect(),
@@ -549,6 +556,21 @@ pub fn check_obs(prop: &str, case: &Case, o: &Obs) -> Vec<Finding> {
         return out;
     }
     let ok = o.run.verdict.is_ok();
+    if let Some(k) = case.proj.err {
+        // a failing file: the run must end (checked above) with Err if the file is required; nothing runs twice
+        if ok && req.contains(&k) {
+            out.push(fnd("failure-not-reported", format!("{} fails but the run reported success", src_name(k))));
+        }
+        for i in 0..n {
+            for pass in [1u8, 2] {
+                let c = idx_all(t, &format!("B pp:{}:{}", src_name(i), pass)).len();
+                if c > 1 {
+                    out.push(fnd("processed-twice", format!("{} pass {} ran {} times (trace {:?})", src_name(i), pass, c, t)));
+                }
+            }
+        }
+        return out;
+    }
     let drain = t.iter().position(|e| e == "DRAIN").unwrap_or(t.len());
     let is_build = matches!(case.mode, Mode::Build | Mode::InMemoryBuild);
     let expect_ok = cyc_req.is_empty();
@@ -701,7 +723,7 @@ fn sel_cases(proj: &Proj, pres: &[Pre], modes: &[Mode], subsets: bool) -> Vec<Ca
 
 fn layout_cases(g: &Graph, style: Style) -> Vec<Case> {
     LAYOUT.with(|l| l.set(true));
-    let proj = Proj { g: *g, style, layout: true };
+    let proj = Proj { g: *g, style, layout: true, err: None };
     let n = g.n;
     let mut v = vec![];
     let mk = |inputs: Vec<String>, roots: Vec<usize>, recursive: bool| Case { proj: proj.clone(), inputs, roots, pre: Pre::Stale, mode: Mode::Build, threads: 0, extra: Tree::new(), recursive };
@@ -775,7 +797,7 @@ pub fn plan(prop: &str, thorough: bool) -> Vec<Case> {
                     if (style == Style::NoTail || style == Style::Dup) && g.edges().is_empty() {
                         continue;
                     }
-                    let proj = Proj { g: *g, style, layout: false };
+                    let proj = Proj { g: *g, style, layout: false, err: None };
                     let (pres, modes): (&[Pre], Vec<Mode>) = if thorough {
                         (&[Pre::Stale, Pre::Absent], vec![Mode::Build, Mode::InMemoryBuild, Mode::Verify])
                     } else if style == Style::Include {
@@ -787,13 +809,13 @@ pub fn plan(prop: &str, thorough: bool) -> Vec<Case> {
                 }
             }
             for g in g4.iter().filter(|g| g.acyclic()) {
-                let proj = Proj { g: *g, style: Style::Include, layout: false };
+                let proj = Proj { g: *g, style: Style::Include, layout: false, err: None };
                 let (pres, modes): (&[Pre], Vec<Mode>) =
                     if thorough { (&[Pre::Stale, Pre::Absent], vec![Mode::Build]) } else { (&[Pre::Stale], vec![Mode::Build]) };
                 cases.extend(sel_cases(&proj, pres, &modes, true));
                 if !g.edges().is_empty() {
                     // the last dependency directive is the last line of the file: directory input only at 4 files
-                    let proj = Proj { g: *g, style: Style::NoTail, layout: false };
+                    let proj = Proj { g: *g, style: Style::NoTail, layout: false, err: None };
                     cases.extend(sel_cases(&proj, &[Pre::Stale], &[Mode::Build], !thorough));
                 }
             }
@@ -804,7 +826,7 @@ pub fn plan(prop: &str, thorough: bool) -> Vec<Case> {
             if thorough {
                 // five files: every isomorphism class of DAGs, directory input and the first file by name
                 for g in dag_classes(5) {
-                    let proj = Proj { g, style: Style::Include, layout: false };
+                    let proj = Proj { g, style: Style::Include, layout: false, err: None };
                     let mut cs = sel_cases(&proj, &[Pre::Stale], &[Mode::Build], true);
                     cs.retain(|c| c.inputs.len() == 1);
                     cases.extend(cs);
@@ -812,12 +834,24 @@ pub fn plan(prop: &str, thorough: bool) -> Vec<Case> {
             }
         }
         "C03" => {
+            // a failing file somewhere in the graph, unsaturated and single-thread pools: the run must still end
+            for g in graphs.iter().filter(|g| g.n >= 2 && (thorough || g.canonical() == g.adj)).chain(g4.iter().filter(|_| true)) {
+                if !thorough && g.n == 4 && g.edges().len() > 3 {
+                    continue;
+                }
+                for k in 0..g.n {
+                    for threads in [0usize, 1] {
+                        let proj = Proj { g: *g, style: Style::Marker, layout: false, err: Some(k) };
+                        cases.push(Case { proj, inputs: vec![".".into()], roots: (0..g.n).collect(), pre: Pre::Stale, mode: Mode::Build, threads, extra: Tree::new(), recursive: false });
+                    }
+                }
+            }
             // files spread over directories, all three source-name shapes, relative include paths with ../
             for g in graphs.iter().filter(|g| g.n == 3 && (thorough || g.canonical() == g.adj)) {
                 cases.extend(layout_cases(g, Style::Marker));
             }
             for g in graphs.iter() {
-                let proj = Proj { g: *g, style: Style::Marker, layout: false };
+                let proj = Proj { g: *g, style: Style::Marker, layout: false, err: None };
                 let modes = if thorough { vec![Mode::Build, Mode::Verify, Mode::InMemoryBuild] } else { vec![Mode::Build] };
                 cases.extend(sel_cases(&proj, &[Pre::Stale], &modes, true));
                 if thorough || g.canonical() == g.adj {
@@ -825,7 +859,7 @@ pub fn plan(prop: &str, thorough: bool) -> Vec<Case> {
                 }
             }
             for g in g4.iter() {
-                let proj = Proj { g: *g, style: Style::Marker, layout: false };
+                let proj = Proj { g: *g, style: Style::Marker, layout: false, err: None };
                 cases.extend(sel_cases(&proj, &[Pre::Stale], &[Mode::Build], thorough));
                 if !thorough {
                     // aliases that scan the directory twice multiply the schedule count: 4-file graphs get the file aliases only
@@ -835,12 +869,12 @@ pub fn plan(prop: &str, thorough: bool) -> Vec<Case> {
         }
         "C05" => {
             for g in graphs.iter() {
-                let proj = Proj { g: *g, style: Style::Include, layout: false };
+                let proj = Proj { g: *g, style: Style::Include, layout: false, err: None };
                 let modes = if thorough || g.n <= 2 { vec![Mode::Build, Mode::InMemoryBuild, Mode::Verify] } else { vec![Mode::Build, Mode::Verify] };
                 cases.extend(sel_cases(&proj, &[Pre::Stale], &modes, true));
             }
             for g in g4.iter() {
-                let proj = Proj { g: *g, style: Style::Include, layout: false };
+                let proj = Proj { g: *g, style: Style::Include, layout: false, err: None };
                 cases.extend(sel_cases(&proj, &[Pre::Stale], &[Mode::Build], true));
             }
         }
@@ -931,7 +965,7 @@ fn run_case(prop: &str, rep: &Report, case0: &Case, ci: usize) {
         // bind the abstract protocol model to the code: same choices, same begin/end events, same verdict
         // (verify of a cyclic project fails early on a missing output: another protocol path, not modelled)
         let verify_cyclic = case.mode == Mode::Verify && case.proj.g.cyc().intersection(&case.required()).next().is_some();
-        if case.extra.is_empty() && case.threads == 0 && o.run.clean() && !verify_cyclic && !case.proj.layout {
+        if case.extra.is_empty() && case.threads == 0 && o.run.clean() && !verify_cyclic && !case.proj.layout && case.proj.err.is_none() {
             let scan = case.inputs == ["."];
             let plain = scan || case.inputs.iter().all(|i| (0..case.proj.g.n).any(|k| out_name(k) == *i));
             if plain {
@@ -1004,7 +1038,7 @@ fn run_case(prop: &str, rep: &Report, case0: &Case, ci: usize) {
             // outcome must not depend on the schedule where the property says so
             let deterministic_expected = match prop {
                 "C02" => true,
-                "C03" | "C05" => case.proj.g.cyc().intersection(&case.required()).next().is_none(),
+                "C03" | "C05" => case.proj.err.is_none() && case.proj.g.cyc().intersection(&case.required()).next().is_none(),
                 _ => false,
             };
             if deterministic_expected && outcomes.len() > 1 {
@@ -1068,7 +1102,7 @@ fn model_phase(prop: &str, rep: &Report) {
                     if let Some(msg) = crate::smodel::check_model(&g, &roots, scan, &mut stats) {
                         // confirm on the real coordinator
                         let case = Case {
-                            proj: Proj { g, style: if prop == "C03" { Style::Marker } else { Style::Include }, layout: false },
+                            proj: Proj { g, style: if prop == "C03" { Style::Marker } else { Style::Include }, layout: false, err: None },
                             inputs: if scan { vec![".".into()] } else { vec![out_name(0)] },
                             roots: if scan { (0..n).collect() } else { roots.clone() },
                             pre: Pre::Stale,
@@ -1139,7 +1173,7 @@ fn extra_checks(prop: &str, rep: &Report) {
             return;
         }
         let n = g.n;
-        let proj = Proj { g: *g, style, layout: false };
+        let proj = Proj { g: *g, style, layout: false, err: None };
         let all: Vec<usize> = (0..n).collect();
         for (inputs, roots) in [(vec![".".to_string()], all.clone()), (all.iter().map(|&i| out_name(i)).collect(), all.clone())] {
             let case = Case { proj: proj.clone(), inputs, roots, pre: Pre::Stale, mode: Mode::Build, threads: 0, extra: Tree::new(), recursive: false };
